@@ -256,6 +256,23 @@ pub fn c12(cx: &Ctx, rep: &mut Report) {
                 .collect();
             bits_verdict(rep, p.id, &format!("sign:{mode:?}"), &outs);
         }
+        // a call that is refused for its arguments (context longer than 255 bytes: FIPS 204 Algorithms 2 and 4 return at
+        // step 1, before rnd is drawn) must not consume randomness: nothing drawn could influence its result
+        for mode in [Mode::Pure, Mode::Sha256, Mode::Sha512, Mode::Shake128] {
+            for l in [256usize, 257, 1024] {
+                rep.count("refused_call_draws_nothing", 1);
+                rep.nontrivial_case(fnv(format!("refused{}{mode:?}{l}", p.id).as_bytes()));
+                let mut rng = ScriptRng::new(vec![Answer::Ok(vec![0x77]); 4]);
+                let r = fb_sk.sign(mode, &mut rng, b"refused", &alpha::ctx(l));
+                if !rng.log.is_empty() || !matches!(r, Ok(Err(_))) {
+                    rep.violate(Violation {
+                        key: format!("c12:refused-call-draws:{mode:?}"),
+                        summary: format!("ML-DSA-{} mode {mode:?}: signing with a {l}-byte context made RNG requests {:?} (result {:?}); a refused call must not draw randomness, no drawn byte can influence its result", p.id, rng.log, r.map(|x| x.map(|_| "a signature")).map_err(|e| e.0)),
+                        replay: json!({"engine":"faults","set":p.id,"what":"refused-call","mode":format!("{mode:?}"),"ctx_len":l}),
+                    });
+                }
+            }
+        }
     }
 }
 fn short(a: &Answer) -> String {
@@ -597,6 +614,11 @@ pub fn kappa_search(n: usize) -> i32 {
     println!("iterations: min {} median {} max {}", its[0], its[its.len() / 2], its[its.len() - 1]);
     for (i, it) in res.iter().filter(|r| r.1 >= 16384) {
         println!("message kappa-overflow-{i}: >= {it} iterations (kappa would pass 65535)");
+    }
+    let mut near: Vec<(usize, usize)> = res.iter().filter(|r| r.1 < 16384).map(|r| (r.1, r.0)).collect();
+    near.sort_unstable_by(|a, b| b.cmp(a));
+    for (it, i) in near.iter().take(5) {
+        println!("message kappa-overflow-{i}: {it} iterations (closest to exhaustion from below)");
     }
     0
 }
